@@ -39,7 +39,9 @@ CLAIMED = {
         text='Polygon2D.area / is_clockwise (translated from the source loop) are proved equal to the shoelace sum of the vertex loop '
              'for every vertex count; the sum is proved independent of the start vertex, negated by reversal, invariant under '
              'translation, multiplied by det M under any linear map (rotation, mirror, scale k^2) and equal to the triangle-fan and '
-             'trapezoid definitions; Face3D.area is proved to be |Newell vector . normal|/2 for any orthonormal plane frame; the generated mesh '
+             'trapezoid definitions; Polygon2D.perimeter (generated, through its segment list) is proved to be the cyclic sum of the edge lengths, '
+             'closing edge included, independent of the start vertex and of the direction; Face3D.area is proved to be |Newell vector . normal|/2 '
+             'for any orthonormal plane frame; the generated mesh '
              'kernels: Mesh2D._get_area is the absolute shoelace value, a plane-embedded 3D triangle has its planar area, the diagonal-cut quad '
              'centroid is the polygon centroid; for the hand model HoleMerge.v of Polygon2D._merge_boundary_and_hole (run against it for every '
              'bridge tried) the merged loop keeps the signed area sum boundary + hole(s) whatever vertices the bridge joins. Perimeter, '
